@@ -119,6 +119,37 @@ func checkC15(w *World, c *Check, tier string) {
 		}
 	}
 
+	// ---- valid: the validity predicate, evaluated for each of the eight names ----
+	if vc := w.Func("ValidCollection"); vc != nil && cpTypeOf(w) != nil {
+		cpT := cpTypeOf(w)
+		targets := []*ssa.Function{vc}
+		// what ValidCollectionIRI applies to the name Split returned
+		if validIRI != nil {
+			for _, call := range callsIn(validIRI) {
+				g := call.Common().StaticCallee()
+				if g != nil && w.InPkg(g) && g != splitFn && len(g.Params) == 1 && types.Identical(g.Params[0].Type(), cpT) {
+					targets = append(targets, g)
+				}
+			}
+		}
+		for _, tf := range targets {
+			for _, n := range c15Names {
+				ip := newInterp(w)
+				res, _, returned := ip.Call(tf, []AV{{K: kConst, C: constant.MakeString(n), T: cpT}}, nil, Store{}, nil)
+				key := funcName(tf) + ":" + n
+				rejected := returned && res.K == kConst && ((res.C.Kind() == constant.Bool && !constant.BoolVal(res.C)) || (res.C.Kind() == constant.String && constant.StringVal(res.C) == ""))
+				switch {
+				case rejected:
+					c.bad("C15.valid", key, w.FuncPos(tf), fmt.Sprintf("%s(%q) evaluates to %s: an IRI built from an owner and this collection name is not recognised as a valid collection IRI", funcName(tf), n, res))
+				case returned && res.K == kConst:
+					c.ok("C15.valid", key, w.FuncPos(tf), "evaluates to "+res.String())
+				default:
+					c.ok("C15.valid", key, w.FuncPos(tf), "not decided by constant evaluation ("+res.String()+"); the table and routing rules apply")
+				}
+			}
+		}
+	}
+
 	// ---- path representation: what Split writes back into URL.Path comes from URL.Path itself ----
 	if sp := w.Method("CollectionPaths", "Split"); sp != nil {
 		for _, f := range w.Reach([]*ssa.Function{sp}, nil) {
@@ -444,4 +475,11 @@ func urlComponentSources(v ssa.Value, d int, seen map[ssa.Value]bool) []string {
 		add(urlComponentSources(x.X, d+1, seen))
 	}
 	return out
+}
+
+func cpTypeOf(w *World) types.Type {
+	if n := w.Named("CollectionPath"); n != nil {
+		return n
+	}
+	return nil
 }
